@@ -67,6 +67,28 @@ T = {
     "C12b": ("C12", "the split into carried and new/renewed facts tests `old expiry != new expiry` instead of `old < new`",
              "a fact that is both streamed and derived with a longer expiry, at a second evaluation",
              "C12-R1 (renewal re-seeds a fact iff its new expiry is later)", None),
+    "C13b": ("C13", "parse_turtle caches the cleaned, prefix-expanded form of subject/predicate tokens per call; the cache is not invalidated when a "
+                    "@prefix line rebinds a label",
+             "one parse_turtle call on a document that binds the same prefix label twice (e.g. concatenated files) and reuses a token after the rebinding",
+             "C13-R4 (memoised term resolution is keyed on everything it depends on)", "missed by C13-R1..R3; C13-R4 added"),
+    "C14b": ("C14", "decode_ntriples_literal locates the closing quote first with a one-character look-behind for a backslash",
+             "a literal whose value ends with a backslash", "C14-R4 (escape-aware termination in one scanner)", "missed by C14-R1..R3; C14-R4 added"),
+    "C15b": ("C15", "Dictionary::decode_term threads a set of expanded quoted ids through the recursion and returns None on a repeat; the set is "
+                    "never reduced, so it tracks the whole call rather than the current path",
+             "one term that contains the same quoted triple twice", "C15-R6 (decoding is a function of the identifier and the stores alone)",
+             "missed by C15-R1..R5; C15-R6 added"),
+    "C17b": ("C17", "execute_sparql_query decides `update` by the first keyword after the prologue and then runs the shared executor",
+             "an update that follows a Kolibrie extension clause (RULE ... / ML.PREDICT ...) sent through the query-only entry point",
+             "C17-R1 (a dataset mutator is reachable from the query-only entry point)", None),
+    "C18b": ("C18", "the fact-matching step of backward chaining looks facts up by the goal's constants and binds the remaining variables with plain inserts",
+             "a pattern with the same unbound variable in two positions and a fact with different values there",
+             "C18-R6 (bindings are made by unification only)", "missed by C18-R1..R5; C18-R6 added"),
+    "C19b": ("C19", "the consistency test before adding a derived fact joins the constraints with only the candidate as delta against the set WITHOUT the candidate",
+             "a derived fact that fills two premises of one constraint at once (e.g. a reflexive fact and an asymmetry constraint)",
+             "C19-R4 (the insertion is guarded by violates_constraints on all facts + candidate)", None),
+    "C06a": ("C06", "the provenance round pre-fills a `queued` set with the round's delta and uses it to gate the re-queuing of improved facts",
+             "a fact that gets a second derivation one round after its first while a consumer rule was evaluated earlier in that round",
+             "C06-R3 / C12-R3 (an improved fact is queued without a further condition)", None),
     "C16b": ("C16", "sparql_aggregate returns the slice matched by the case-insensitive keyword helper instead of the canonical literal",
              "an aggregate keyword not written in upper case", "C16-R4 (keyword text never reaches the tree)",
              "missed by C16-R1..R3 (C01-R1 fired only through a floor, for the wrong reason); C16-R4 added, C01-R1 reads constant tables"),
